@@ -29,4 +29,38 @@ PROPS = {
              "bounding box of the main root-level shapes on each named side (1 px), and for *-center the centre coordinate equals that of the shapes-only "
              "box or of the box extended by routes (the statement does not say which), +-1.5 px. non-trivial = >=3 main objects and >=2 nears.",
     ),
+    "C20": dict(
+        engine="p_layout", quick_checks=700, thorough_checks=20000, quick_shards=14, thorough_shards=16, quick_budget_s=400, thorough_budget_s=3000,
+        rule=_GEN + "; 2/3 of the cases come from the tame class (undecorated rectangular containers, no self-loops, no container endpoints) on which the "
+             "property is asserted strictly, 1/3 from the unrestricted generator. oracle: distance from the first/last route point to the union of "
+             "(outline from flattening the shape's SVG path data or ellipse, box border, the same shifted by the 3D/multiple offset, padded "
+             "outside-label box border, outside-icon box border) <= 3 px; sequence-diagram messages excluded; histogram of deviations in the "
+             "evidence. non-trivial = some endpoint is non-rectangular, a container or 3d/multiple.",
+    ),
+    "C22": dict(
+        engine="p_layout", quick_checks=2000, thorough_checks=40000, quick_shards=14, thorough_shards=16, quick_budget_s=400, thorough_budget_s=3000,
+        rule="grids with 0-30 cells (explicit random sizes, nested containers, empty cells), any subset and order of grid-rows/grid-columns/grid-gap/"
+             "vertical-gap/horizontal-gap; core = 8 cell counts x 9 setting lists. oracle: children listed in declaration order; cells pairwise "
+             "disjoint and inside the grid box (1 px); consecutive cells: same line => separated by >= the configured gap, otherwise the next "
+             "line starts beyond the previous cell plus the gap (row-major if rows come first/only, else column-major); with rows and columns and no "
+             "overflow: equal height per row, equal width per column, neighbours exactly one gap apart. non-trivial = >=5 cells of >=3 distinct sizes.",
+        assumptions=["the default gap is 40 (documentation)", "when there are more cells than rows x columns the placement of the overflow is not asserted"],
+    ),
+    "C23": dict(
+        engine="p_layout", quick_checks=2000, thorough_checks=50000, quick_shards=14, thorough_shards=16, quick_budget_s=400, thorough_budget_s=3000,
+        rule="sequence diagrams (root or nested in a container with an outside connection): 1-8 actors (default or person/cylinder/oval/queue/"
+             "diamond/cloud), 0-30 messages with all arrow forms, spans on either end, self messages, notes, groups; one statement per line. oracle on "
+             "the exported diagram: actor centres strictly increase in declaration order, default-shape actors share a bottom edge; messages are "
+             "exported in declaration order and their start y strictly increases; a message between different actors is one horizontal 2-point "
+             "segment whose ends lie on the actor's lifeline (centre x) or on the border of the addressed span, within the span's height. "
+             "non-trivial = >=3 actors, >=5 messages and a span or self message.",
+    ),
+    "C21": dict(
+        engine="p_layout", quick_checks=1000, thorough_checks=25000, quick_shards=14, thorough_shards=16, quick_budget_s=400, thorough_budget_s=3000,
+        rule="2-5 leaf shapes per diagram: every shape type incl. text/code/class/sql_table x labels (short, 1-25 words, multi-line, non-ASCII wide/"
+             "narrow glyphs, empty) x font-size 8-100, bold, italic, mono x icon x explicit dimensions (both, one, none), dagre/ELK; core = every "
+             "shape with a long label and with 123x123. oracle after layout: both dimensions given => exactly that size (square/circle: the larger for "
+             "both; class/sql_table/code: >= requested); no dimension given, label inside and no icon => the text area (GetInnerBox of the final box) "
+             ">= label dimensions - 1 px and inside the box. non-trivial = non-rectangular shape or label > 20 runes.",
+    ),
 }
